@@ -603,12 +603,12 @@ func runC16(c *ev.ChildEnv, res *ev.Result) {
 		hd := hn%2 == 0
 		jobs = append(jobs, func() { res.Eval(); c16History(res, ops, tag, hd) })
 	}
-	for rep := 0; rep < tierN(c.Tier, 2, 8); rep++ {
+	for rep := 0; rep < tierN(c.Tier, 2, 60); rep++ {
 		for _, f := range fixed {
 			addHist(f)
 		}
 	}
-	for i := 0; i < tierN(c.Tier, 24, 600); i++ {
+	for i := 0; i < tierN(c.Tier, 24, 20000); i++ {
 		var ops []string
 		for j, l := 0, 2+g.IntN(5); j < l; j++ {
 			ops = append(ops, opsPool[g.IntN(len(opsPool))])
